@@ -7,7 +7,7 @@ use serde_json::{json, Value};
 pub const DEF: PropDef = PropDef {
     id: "C15",
     level: "exploration",
-    rule: "54 base programs with up to 3 name placeholders in every name position (targets, operands, subscripts, listen, build/knock, rock/roll, mutation operand / destination, parameters, function and call names, poetic assignment, pronoun referents, erroring uses, 's / 're contractions, a name shared by a function and a parameter or variable); for each: all 6^k fillings from three name kinds x two alphabets (simple zed / élan, common the zed / my élan, proper Zed Yod / Élan Über Zed; distinct words per placeholder so that distinct spellings denote distinct variables); for every filling every single mention re-cased in each admissible way (proper names keep their capitals), all mentions re-cased at once, (thorough) all pairs of re-cased mentions, and all keywords upper-cased / title-cased / aLtErNaTeD / AlTeRnAtEd; plus 16 pairs of confusable names (same letters with other word breaks, with / without article, other article, with / without accent, swapped words) in 6 shapes, both orders; oracle (metamorphic, no reference interpreter): stdout and outcome class equal those of the all-simple-lowercase filling; non-trivial = every case (two executions compared); distinct = distinct program text",
+    rule: "58 base programs with up to 3 name placeholders in every name position (targets, operands, subscripts, listen, build/knock, rock/roll, mutation operand / destination, parameters, function and call names, poetic assignment, pronoun referents, erroring uses, 's / 're contractions, a name shared by a function and a parameter or variable); for each: all 6^k fillings from three name kinds x two alphabets (simple zed / élan, common the zed / my élan, proper Zed Yod / Élan Über Zed; distinct words per placeholder so that distinct spellings denote distinct variables); for every filling every single mention re-cased in each admissible way (proper names keep their capitals), all mentions re-cased at once, (thorough) all pairs of re-cased mentions, and all keywords upper-cased / title-cased / aLtErNaTeD / AlTeRnAtEd; plus 19 pairs of confusable names (same letters with other word breaks, with / without article, other article, with / without accent, swapped words) in 6 shapes, both orders; oracle (metamorphic, no reference interpreter): stdout and outcome class equal those of the all-simple-lowercase filling; non-trivial = every case (two executions compared); distinct = distinct program text",
     assumptions: &["error messages quote names as spelled and are therefore compared by class (ok / runtime error / parse error) only"],
     build,
     exhaustive: true,
@@ -57,6 +57,11 @@ pub const BASES: &[&str] = &[
     "@1 takes @2\ngive back @2\n\nsay 1\n@1 takes @3\ngive back 5\n\nsay @1 taking 2\n",
     "put 1 into @1\nsay 1\n@1 takes @2\ngive back @2\n\nsay 2\nsay @1\n",
     "rock @1 with 1\nlet @1 at @1 be 2\nsay @1\n",
+    // a call after the list separator of another call's arguments
+    "@1 takes @2\ngive back @2\n\nsay @1 taking 1 and @1 taking 2\nsay 5\n",
+    "@1 takes @2 and @3\ngive back @2 plus @3\n\nsay @1 taking 1, 2 and @1 taking 3, 4\nsay 5\n",
+    "@1 takes @2\ngive back @2\n\nsay @1 taking 1, and @1 taking 2\nsay @1 taking 1 & @1 taking 2\nsay @1 taking 1 'n' @1 taking 2\n",
+    "@1 takes @2\ngive back @2\n\n@3 takes @2\ngive back @2 plus 1\n\nsay @1 taking 1 and @3 taking 2\nsay @1 taking @3 taking 1 and @1 taking 2\n",
     // a local in one scope, then a later scope of every kind (the shapes of C05's scope family)
     "if true\nput 1 into @1\nsay @1\n\nif true\nsay @1\n\n",
     "if true\nput 1 into @1\n\nif true\nrock @1 with 5\nsay @1\n\n",
@@ -77,6 +82,9 @@ pub const BASES: &[&str] = &[
 /// pairs of names that a lossy key (dropped word breaks, dropped article, folded accents) would merge
 pub const CONFUSABLE: &[(&str, &str)] = &[
     ("Sun Dance", "Sund Ance"),
+    ("Zed Yod", "Zed Yod Qux"),
+    ("Ab Cd", "Ab Cd Ef Gh"),
+    ("Zed Yod Qux", "Yod Qux"),
     ("Zed Yod", "Zedyod"),
     ("Zed Yod Qux", "Zed Yodqux"),
     ("Zed Yod Qux", "Zedyod Qux"),
